@@ -277,7 +277,14 @@ func genC18(r *simrt.Rand, tier string) *simrt.Plan {
 			ops = append(ops, simrt.Op{K: "q", S: []string{g.index, e.json()}, I: []int64{g.node()}})
 		case x < 9:
 			from, to := g.alignedRange(f.quantum)
-			ops = append(ops, simrt.Op{K: "rows", S: []string{g.index, f.name}, I: []int64{g.node(), -1, 0, -1, from, to}})
+			lim, prev := int64(0), int64(-1)
+			if r.Bool(0.4) {
+				lim = int64(1 + r.Intn(3)) // views are in time order, not row order: a limit must not cut them short
+			}
+			if r.Bool(0.2) {
+				prev = g.row()
+			}
+			ops = append(ops, simrt.Op{K: "rows", S: []string{g.index, f.name}, I: []int64{g.node(), prev, lim, -1, from, to}})
 		default:
 			if nodes == 1 && r.Bool(0.5) {
 				ops = append(ops, simrt.Op{K: "restart"})
@@ -331,6 +338,11 @@ func genC19(r *simrt.Rand, tier string) *simrt.Plan {
 		for i := 0; i < ns; i++ {
 			t := ts()
 			stamps = append(stamps, t)
+			if r.Bool(0.3) {
+				// another column (another shard, possibly another node) is the first to be set
+				// in this period: its node creates the views and the others learn of them
+				ops = append(ops, simrt.Op{K: "set", S: idx, I: []int64{g.row(), g.col(), g.node(), t}})
+			}
 			ops = append(ops, simrt.Op{K: "set", S: idx, I: []int64{row, col, g.node(), t}})
 			if r.Bool(0.5) {
 				// sibling views from other columns / rows
